@@ -265,8 +265,8 @@ func GenProject(t *rapid.T, pf Profile) *Project {
 			c.Security = genSec(t, "ctrlSec", secNames)
 		}
 		c.Desc = genDesc(t, "ctrlDesc")
-		c.Grouped = !pf.NoLayoutNoise && rapid.IntRange(0, 4).Draw(t, "grouped") == 0
-		if c.Grouped && rapid.Bool().Draw(t, "groupDoc") {
+		c.Grouped = !pf.NoLayoutNoise && rapid.IntRange(0, 2).Draw(t, "grouped") == 0
+		if c.Grouped && rapid.IntRange(0, 2).Draw(t, "groupDoc") > 0 {
 			c.GroupDoc = "Types of this file, kept in one declaration group."
 		}
 		if !pf.NoLayoutNoise {
